@@ -78,6 +78,11 @@ func c10Build(in c10Input) ([]mockq.Rec, refmodel.Expr) {
 		}
 	case "avg-unwrap":
 		e = &refmodel.RangeAgg{Op: "avg_over_time", Unwrap: "v", RangeNS: 10 * sec, Grouping: g}
+	case "total-or-vector":
+		// two ways of producing the empty label set must agree on its identity
+		e = &refmodel.Bin{Op: "or", L: &refmodel.VecAgg{Op: "sum", X: &refmodel.RangeAgg{Op: "count_over_time", RangeNS: 10 * sec}}, R: &refmodel.Vec{V: 0}}
+	case "vector-unless-total":
+		e = &refmodel.Bin{Op: "unless", L: &refmodel.Vec{V: 1}, R: &refmodel.VecAgg{Op: "count", Grouping: &refmodel.Grouping{Labels: []string{}}, X: &refmodel.RangeAgg{Op: "count_over_time", RangeNS: 10 * sec}}}
 	case "nested":
 		// a vector aggregation over a range aggregation that carries its own without clause
 		outer := g
@@ -239,9 +244,9 @@ func c10Run(r *vkit.Run) {
 		if r.Stop() {
 			break
 		}
-		for _, shape := range []string{"count", "sum-count", "avg-unwrap", "nested"} {
+		for _, shape := range []string{"count", "sum-count", "avg-unwrap", "nested", "total-or-vector", "vector-unless-total"} {
 			for _, g := range c10GroupingNames {
-				if shape == "count" && g != "" {
+				if (shape == "count" || shape == "total-or-vector" || shape == "vector-unless-total") && g != "" {
 					continue // the grammar forbids grouping on count_over_time
 				}
 				for _, rg := range []bool{false, true} {
